@@ -170,12 +170,14 @@ def step (st : Option KV.TrieLM.Trie) (line : String) : Option KV.TrieLM.Trie ×
         | .error e => (st, s!"tb err {repr e}")
         | .ok b =>
           let M := KV.TrieLM.ofTable b.table bound order start
+          -- the verified checker on the model-built trie: by `check_sound`, this run proves `Represents (ofTable …) (tableOf (ftOf …))`
+          let rep := if b.table.length ≤ 300 then toString (KV.TrieLM.check KV.TrieLM.f32ToRat M (KV.TrieLM.ftOf KV.TrieLM.f32ToRat b.table order) order (KV.TrieLM.rngOf b.table bound)) else "skipped"
           let real := natOfBytes bs <<< (8 * start)
           let x := M.mem ^^^ real
-          if x = 0 then (some M, s!"tb ok counts={commaSep b.counts} blanks={b.blanks.length} equal")
+          if x = 0 then (some M, s!"tb ok counts={commaSep b.counts} blanks={b.blanks.length} represents={rep} equal")
           else
             let low := Nat.log2 (x - (x &&& (x - 1)))
-            (some M, s!"tb ok counts={commaSep b.counts} blanks={b.blanks.length} diff byte={low / 8 - start} model={(M.mem >>> (8 * (low / 8))) % 256} real={(real >>> (8 * (low / 8))) % 256}")
+            (some M, s!"tb ok counts={commaSep b.counts} blanks={b.blanks.length} represents={rep} diff byte={low / 8 - start} model={(M.mem >>> (8 * (low / 8))) % 256} real={(real >>> (8 * (low / 8))) % 256}")
       | _, _ => (st, "bad-op")
     | _, _, _, _ => (st, "bad-op")
   | "triecheck" :: order :: toks =>
